@@ -49,7 +49,7 @@ def own():
     rows = ['| property | round 1 | round 2 | round 3 | round 4 | round 5 | round 6 |', '|---|---|---|---|---|---|---|']
     for i in range(1, 21):
         pid = 'C%02d' % i
-        rows.append('| %s | ' % pid + ' | '.join(sym.get(m.get(pid + r, ''), 'withdrawn' if (pid + r) in ('C01b', 'C14c') else ' ') for r in rounds) + ' |')
+        rows.append('| %s | ' % pid + ' | '.join(sym.get(m.get(pid + r, ''), 'withdrawn' if (pid + r) in ('C01b', 'C14c', 'C08b') else ' ') for r in rounds) + ' |')
     return '\n'.join(rows)
 
 
